@@ -20,11 +20,13 @@ class Unknown(Exception):
 
 
 class Domain:
-    def __init__(self, facts, outer_suffix, inner_suffix=None, wrapper=None):
-        """outer_suffix e.g. 'model::AxisSpecifier', inner_suffix 'model::AxisName', wrapper = outer variant carrying inner"""
+    def __init__(self, facts, outer_suffix, inner_suffix=None, wrapper=None, outer_vars=None, level_fn=None):
+        """outer_suffix e.g. 'model::AxisSpecifier', inner_suffix 'model::AxisName', wrapper = outer variant carrying inner;
+        outer_vars: the variants of an outer enum that is not a workspace type (Option: None / Some)"""
         self.facts = facts
         self.outer, self.inner, self.wrapper = outer_suffix, inner_suffix, wrapper
-        self.outer_vars = self._variants(outer_suffix)
+        self.level_fn = level_fn
+        self.outer_vars = list(outer_vars) if outer_vars else self._variants(outer_suffix)
         self.inner_vars = self._variants(inner_suffix) if inner_suffix else []
         if not self.outer_vars or (inner_suffix and not self.inner_vars):
             raise Unknown("enum %s / %s not found among the ADTs" % (outer_suffix, inner_suffix))
@@ -38,6 +40,8 @@ class Domain:
 
     def level(self, ty):
         ty = str(ty or "")
+        if self.level_fn is not None:
+            return self.level_fn(ty)
         if self.outer.split("::")[-1] in ty:
             return "outer"
         if self.inner and self.inner.split("::")[-1] in ty:
